@@ -60,3 +60,175 @@ def twos_complement(ctx, facts, rule):
         else:
             ctx.ok(rule, name, '%d argument tuples (all values of widths 1..6) agree; summary: %s' % (n, show(ret)[:120]), grade='bounded')
             ctx.sample(dict(rule=rule, function=name, summary=show(ret)[:160], evaluations=n))
+
+
+# ---------------------------------------------------------------------------------------------
+# C12.b sibling agreement of the hp / sp / dp variants
+FMT = {'hp': (5, 10), 'sp': (8, 23), 'dp': (11, 52)}
+
+
+def roles(fmt, v):
+    """possible format roles of an integer constant in a function written for format fmt"""
+    E, M = FMT[fmt]
+    bias = (1 << (E - 1)) - 1
+    tab = [(E + M, 'SIGNPOS'), (M, 'M'), (M - 1, 'M-1'), (M + 1, 'M+1'), ((1 << E) - 1, 'EMAX'), (bias, 'BIAS'), (-bias, '-BIAS'), (bias + 1, 'BIAS+1'),
+           (-(bias + 1), '-(BIAS+1)'), (1 - bias, 'EMIN'), ((1 << M) - 1, 'MMASK'), (1 << M, 'HIDDEN'), (1 << (M - 1), 'QNAN'), ((1 << (M - 1)) - 1, 'QNAN-1'),
+           (E, 'E'), (bias - 1, 'BIAS-1'), (E + M + 1, 'WIDTH'), (-(bias) - 1 + 1, '-BIAS'), (1 << E, '2^E'), ((1 << (E + M)) - 1, 'ABSMASK'), (M + 2, 'M+2'),
+           (-bias - M, 'EMIN-M-1+1'), (1 - bias - M, 'EMIN-M')]
+    return {n for val, n in tab if val == v}
+
+
+def const_value(n):
+    if isinstance(n, ast.Constant) and isinstance(n.value, int) and not isinstance(n.value, bool):
+        return n.value
+    if isinstance(n, ast.UnaryOp) and isinstance(n.op, ast.USub) and isinstance(n.operand, ast.Constant) and isinstance(n.operand.value, int):
+        return -n.operand.value
+    return None
+
+
+def rename(s, fmt):
+    return s.replace('_' + fmt, '_FMT').replace(fmt + '_', 'FMT_')
+
+
+def strip_fn(fn):
+    body = [s for s in fn.body if not (isinstance(s, ast.Expr) and isinstance(s.value, ast.Constant) and isinstance(s.value.value, str))]
+    return body
+
+
+def mentions_nan(node):
+    return any(isinstance(x, ast.Attribute) and x.attr == 'isnan' or isinstance(x, ast.Name) and 'nan' in x.id.lower() for x in ast.walk(node))
+
+
+def cmp_nodes(a, b, fa, fb, path, out):
+    """parallel walk; appends (path, text a, text b) for the first difference on each branch"""
+    if len(out) >= 3:
+        return
+    va, vb = const_value(a), const_value(b)
+    if va is not None and vb is not None:
+        if va == vb and abs(va) <= 2:
+            return
+        ra, rb = roles(fa, va), roles(fb, vb)
+        if ra & rb:
+            return
+        if va == vb and not ra and not rb:
+            return
+        out.append((path, ast.unparse(a) + (' [%s]' % '/'.join(sorted(ra)) if ra else ''), ast.unparse(b) + (' [%s]' % '/'.join(sorted(rb)) if rb else '')))
+        return
+    if type(a) is not type(b):
+        out.append((path, ast.unparse(a)[:70] if isinstance(a, ast.AST) else repr(a), ast.unparse(b)[:70] if isinstance(b, ast.AST) else repr(b)))
+        return
+    if isinstance(a, ast.If) and mentions_nan(a.test) and mentions_nan(b.test):
+        return          # NaN payloads are excluded by the property
+    if isinstance(a, ast.Constant):
+        if isinstance(a.value, str) and isinstance(b.value, str):
+            return
+        if a.value != b.value:
+            out.append((path, repr(a.value), repr(b.value)))
+        return
+    for f in a._fields:
+        x, y = getattr(a, f, None), getattr(b, f, None)
+        if f in ('ctx', 'type_comment', 'lineno', 'kind'):
+            continue
+        if isinstance(x, list) and isinstance(y, list):
+            if f == 'body' or f == 'orelse':
+                x = [s for s in x if not (isinstance(s, ast.Expr) and isinstance(s.value, ast.Constant))]
+                y = [s for s in y if not (isinstance(s, ast.Expr) and isinstance(s.value, ast.Constant))]
+            if len(x) != len(y):
+                out.append((path + '.' + f, '%d statements: %s' % (len(x), '; '.join(ast.unparse(s)[:40] for s in x[:3])), '%d statements: %s' % (len(y), '; '.join(ast.unparse(s)[:40] for s in y[:3]))))
+                continue
+            for i, (p, q) in enumerate(zip(x, y)):
+                if isinstance(p, ast.AST) and isinstance(q, ast.AST):
+                    cmp_nodes(p, q, fa, fb, '%s.%s[%d]' % (path, f, i), out)
+        elif isinstance(x, ast.AST) and isinstance(y, ast.AST):
+            cmp_nodes(x, y, fa, fb, path + '.' + f, out)
+        elif isinstance(x, str) and isinstance(y, str):
+            if rename(x, fa) != rename(y, fb):
+                out.append((path + '.' + f, x, y))
+        elif x != y and not (isinstance(x, ast.AST) or isinstance(y, ast.AST)):
+            out.append((path + '.' + f, repr(x), repr(y)))
+        elif (x is None) != (y is None):
+            out.append((path + '.' + f, repr(x), repr(y)))
+
+
+SIBLINGS = [('FloatingPointHelper', 'sp_to_ieee754_parts', 'dp_to_ieee754_parts', 'sp', 'dp'),
+            ('FloatingPointHelper', 'ieee754_parts_to_sp', 'ieee754_parts_to_dp', 'sp', 'dp'),
+            ('FloatingPointHelper', 'ieee754_to_sp', 'ieee754_to_dp', 'sp', 'dp'),
+            ('FloatingPointHelper', 'sp_to_ieee754', 'dp_to_ieee754', 'sp', 'dp'),
+            ('FloatingPointHelper', 'unpack_ieee754_sp_parts', 'unpack_ieee754_dp_parts', 'sp', 'dp'),
+            ('FPNum', 'from_ieee754_sp', 'from_ieee754_dp', 'sp', 'dp'),
+            ('FPNum', 'from_ieee754_hp', 'from_ieee754_sp', 'hp', 'sp'),
+            ('FPNum', 'unpack_ieee754_hp_parts', 'unpack_ieee754_sp_parts', 'hp', 'sp'),
+            ('FPNum', 'unpack_ieee754_sp_parts', 'unpack_ieee754_dp_parts', 'sp', 'dp'),
+            ('FPNum', 'pack_ieee754_sp_parts', 'pack_ieee754_dp_parts', 'sp', 'dp'),
+            ('FPNum', 'pack_ieee754_hp_parts', 'pack_ieee754_sp_parts', 'hp', 'sp')]
+
+
+def siblings(ctx, facts):
+    n = 0
+    for cn, fa_name, fb_name, fa, fb in SIBLINGS:
+        c = facts.cls(cn, HELPER, required=False)
+        if c is None or fa_name not in c.methods or fb_name not in c.methods:
+            ctx.error('C12.b', 'anchor %s.%s / %s not found' % (cn, fa_name, fb_name))
+            continue
+        n += 1
+        A, B = c.methods[fa_name], c.methods[fb_name]
+        out = []
+        ma = ast.Module(body=strip_fn(A), type_ignores=[])
+        mb = ast.Module(body=strip_fn(B), type_ignores=[])
+        cmp_nodes(ma, mb, fa, fb, '', out)
+        key = '%s.%s~%s' % (cn, fa_name, fb_name)
+        if out:
+            for path, ta, tb in out[:2]:
+                ctx.violation('C12.b', '%s:%s' % (key, ta[:40]), 'the %s and %s variants of one conversion disagree beyond their format constants: `%s` versus `%s`' % (fa, fb, ta, tb),
+                              '%s:%s.%s' % (HELPER, cn, fa_name), witness=dict(position=path, **{fa: ta, fb: tb}))
+        else:
+            ctx.ok('C12.b', key, 'identical after mapping constants to format roles (sign position, exponent mask, bias, minimum exponent, hidden bit, mantissa mask)')
+    ctx.floor('C12.b', 'sibling pairs', n, 9)
+
+
+def exactness(ctx, facts):
+    """C12.e: the exact operations of FPNum never consult the precision limit nor shift bits out"""
+    c = facts.cls('FPNum', HELPER, required=False)
+    if c is None:
+        ctx.error('C12.e', 'anchor FPNum not found')
+        return
+    for mn in ('add', 'sub', 'mul', 'compare', 'neg', 'abs', 'increase_exponent', 'increase_precision'):
+        m = c.methods.get(mn)
+        if m is None:
+            ctx.error('C12.e', 'anchor FPNum.%s not found' % mn)
+            continue
+        lossy = []
+        for x in ast.walk(m):
+            if isinstance(x, ast.Attribute) and x.attr == 'max_prec':
+                lossy.append('consults max_prec')
+            if isinstance(x, ast.BinOp) and isinstance(x.op, (ast.RShift, ast.FloorDiv, ast.Div)):
+                lossy.append('`%s`' % ast.unparse(x)[:40])
+            if isinstance(x, ast.AugAssign) and isinstance(x.op, (ast.RShift, ast.FloorDiv, ast.Div)):
+                lossy.append('`%s`' % ast.unparse(x)[:40])
+            if isinstance(x, ast.Call) and isinstance(x.func, ast.Attribute) and x.func.attr in ('reducePrecision', 'reducePrecisionWithRounding', 'reduceExponentPrecision'):
+                lossy.append('calls %s' % x.func.attr)
+            if isinstance(x, ast.Call) and isinstance(x.func, ast.Name) and x.func.id in ('float', 'round', 'int'):
+                lossy.append('converts through %s()' % x.func.id)
+        if lossy:
+            ctx.violation('C12.e', 'FPNum.%s' % mn, 'an exact operation drops bits: %s' % ', '.join(sorted(set(lossy))), '%s:FPNum.%s' % (HELPER, mn),
+                          witness=dict(note='chained operations whose combined precision exceeds the limit lose low-order bits'))
+        else:
+            ctx.ok('C12.e', 'FPNum.%s' % mn, 'no right shift, division, rounding or precision limit: the result keeps every bit')
+
+
+def run(ctx, sm, facts):
+    from ..leafrules import definite_failures
+    ctx.rule('C12.b', 'hp/sp/dp variants of each conversion agree after mapping constants to format roles (NaN payloads excluded)')
+    ctx.rule('C12.c', "two's-complement helpers == contract over all values of widths 1..6")
+    ctx.rule('C12.d', 'no undefined name / never-assigned attribute in the number-format helper classes')
+    ctx.rule('C12.e', 'exact FPNum operations never drop bits')
+    siblings(ctx, facts)
+    twos_complement(ctx, facts, 'C12.c')
+    exactness(ctx, facts)
+    definite_failures(ctx, facts, sm, 'C12.d', [HELPER], class_filter=lambda n: n in ('FPNum', 'FloatingPointHelper', 'IntegerHelper', 'FixedPoint'))
+    ctx.not_decided += ['round-trip over all bit patterns and agreement with the platform encoder (numeric run-time facts)', 'rounding of float -> parts conversions',
+                        'ordering and rational exactness of FPNum as such (only the no-bit-dropped clause is decided)', 'FixedPoint arithmetic']
+
+
+LEVEL_TEXT = ('Static clause-level rules: sibling agreement of the hp/sp/dp conversion variants under format-role normalisation, two\'s-complement helpers '
+              'against their contract, no-bit-dropped shape of the exact FPNum operations, definite-failure lint. Numeric round-trip facts are not decided.')
